@@ -38,6 +38,12 @@ class C03(Prop):
                 case["pre"] = pre
                 case["kind"] = "roundtrip"
             cases.append(case)
+        # payloads at and next to the size limit (frames of 998, 999 and 1000 bytes)
+        for k in kinds:
+            for plen in (988, 989, 990):
+                if rng.random() < (0.2 if tier == "quick" else 1.0):
+                    f = [k, rng.choice(G.OUR_RCPT), rng.choice(G.KNOWN_SENDERS), 48, 5, list(G.rand_payload(rng, plen))]
+                    cases.append({"kind": "roundtrip", "f": f, "rest": list(G.rand_payload(rng, rng.choice([0, 3])))})
         for i in range(n):
             f, _ = G.rand_frame(rng, kinds, own=None, known_sender=None, known_kind=True, maxlen=12)
             f = [f[0], f[1], f[2], f[3], f[4], list(f[5])]
